@@ -83,6 +83,8 @@ class UnusedTranslator:
                 ASTType.ProjectAtom,
             ):
                 self._add_usage(stm.body)
+            if stm.ast_type in (ASTType.External, ASTType.Heuristic, ASTType.ProjectAtom):
+                self._add_usage_stm(stm.atom)
             if stm.ast_type == ASTType.Rule and stm.head.ast_type in (
                 ASTType.TheoryAtom,
                 ASTType.Disjunction,
